@@ -304,5 +304,16 @@ def proof_stage(res, prop, allow=None, extra_obligations=0):
                         checker_cmd="make -C coq props/%s.vo (coqc 8.16.1, full .vo build) + Print Assumptions allow-list + forbidden-construct grep" % prop,
                         trusted_base=list(TRUSTED_BASE), theorems=c["theorems"],
                         print_assumptions={k: (v or "Closed under the global context") for k, v in c["assumptions"].items()})
+    if res.tier == "thorough" and c["ok"]:
+        # independent re-check of the compiled property file and everything it depends on; lists axioms and unsafe flags
+        r = sh(["timeout", "1500", "coqchk", "-o", "-silent", "-Q", "theories", "SV", "-Q", "gen", "SVgen", "-Q", "props", "SVP", "SVP." + prop], cwd=COQ, check=False)
+        summary = r.stdout[r.stdout.find("CONTEXT SUMMARY"):] if "CONTEXT SUMMARY" in r.stdout else r.stdout[-1500:]
+        clean = (r.returncode == 0 and all(("* %s: <none>" % k) in summary for k in
+                 ("Axioms", "Constants/Inductives relying on type-in-type", "Constants/Inductives relying on unsafe (co)fixpoints", "Inductives whose positivity is assumed")))
+        res.coverage["coqchk"] = "clean: Axioms <none>, no type-in-type, no unsafe fixpoints, no assumed positivity" if clean else summary[-1200:]
+        res.coverage["checker_cmd"] += " + coqchk -o SVP.%s" % prop
+        if not clean:
+            c["ok"] = False; c["broken_at"] = "coqchk -o SVP.%s" % prop; c["log"] = summary[-2500:]; c["discharged"] = 0
+            res.coverage["discharged"] = 0
     res.proof = c
     return c
